@@ -8,7 +8,7 @@
 From Coq Require Import Reals Lra List Bool Arith ZArith.
 From Coquelicot Require Import Complex.
 From QV Require Import Sem Mat2 Toff2 Chain Barenco GateA McxModel LinearMcx LdmcsuModel QdmcuModel.
-From QV Require LdmcuCore LdmcuModel LdmcuInst AbcModel LdmcsuEig Transpose MultiTarget MultiTargetAll McuModel.
+From QV Require LdmcuCore LdmcuModel LdmcuInst AbcModel LdmcsuEig Transpose MultiTarget MultiTargetAll McuModel McuExtra.
 Open Scope R_scope.
 
 (* CV(c->t) ; MCX(rest->c) ; CV^dagger(c->t) ; MCX(rest->c) ; C^{rest}V(t)  =  U on t controlled on rest /\ c,
@@ -150,3 +150,16 @@ Theorem C04_mcu_root_deviation : forall (phi delta eps : R), (Rabs phi <= delta)
   (cos delta = 1 - eps * eps / 2)%R -> ((cos phi - 1) * (cos phi - 1) + sin phi * sin phi <= eps * eps)%R.
 Proof. exact McuModel.root_deviation. Qed.
 Print Assumptions C04_mcu_root_deviation.
+
+(* MCU with e extra controls beyond the base count T (T + e controls, target T + e): controls 0..e act together as control 0 of the
+   base circuit - their rotations are multi-controlled and emitted in one block at the end of the sweep -, the other qubits are the
+   base qubits shifted by e.  EXACT operator: the ideal gate U = W^(2^(T-1)) on the matching basis states, times W^-1 on the target
+   whenever the first e + 1 controls match their pattern bits.  (McuExtra.sweepx_sem: the sweep with the collected gates denotes the
+   same grouped form; McuExtra.vrun_virtual_all: a conjunction of never-targeted qubits in place of a control.) *)
+Theorem C04_mcu : forall (e T : nat) (W Wi : mat2) (pat : list bool) (psi : state),
+  1 <= T -> mmul W Wi = I2 -> mmul Wi W = I2 ->
+  McuExtra.xrun (LdmcuInst.ELd T W Wi) (McuExtra.mcux e T pat) psi
+  = appf (fun b => mmul (if pmatch pat (T + e) b then LdmcuInst.npow W (2 ^ (T - 1)) else I2)
+                        (if pmatch pat (S e) b then Wi else I2)) (T + e) psi.
+Proof. exact McuExtra.mcux_sem. Qed.
+Print Assumptions C04_mcu.
